@@ -28,7 +28,7 @@ def main(pid, tier, replay_path=None):
             cells = cells_from_tlc(sc)
             if replay_path:
                 cells = [json.load(open(replay_path))['cell']]
-            rounds = 1 if tier == 'quick' else 3
+            rounds = 1 if tier == 'quick' else 8
             allc = []
             for rd in range(rounds):
                 for i, c in enumerate(cells):
@@ -104,8 +104,8 @@ def main(pid, tier, replay_path=None):
             # Close/Writer/Reader calls racing a close (blocked flush, timed reads) under the controlled scheduler
             if not replay_path:
                 seed = vlib.seed()
-                scs = conn.gen_scenarios('flush', 500 if tier == 'quick' else 8000, seed) + conn.gen_scenarios('close', 300 if tier == 'quick' else 5000, seed) \
-                    + conn.gen_scenarios('read', 300 if tier == 'quick' else 5000, seed)
+                scs = conn.gen_scenarios('flush', 500 if tier == 'quick' else 20000, seed) + conn.gen_scenarios('close', 300 if tier == 'quick' else 12000, seed) \
+                    + conn.gen_scenarios('read', 300 if tier == 'quick' else 12000, seed)
                 cres, ccr = conn.run_scenarios(sc, binary, scs, 'c', procs=12)
                 cvs, cn, cst = conn.validate(sc, cres, [s['id'] for s in scs], 'c')
                 cby = {s['id']: s for s in scs}
